@@ -272,3 +272,85 @@ Example c12_callable_registered_again :
   = [ONone; ONone; ONone; ONone; ONone; OCalled [0; 0; 1]; OCalled [0]; OCalled [];
      OPrio (Some 0%Z); OPrio (Some 0%Z); OPrio (Some 0%Z)]%N.
 Proof. vm_compute. reflexivity. Qed.
+
+(* ================================================================== *)
+(* Third layer (nstep / run_C12N of Model/Dispatcher.v; fourth-session audit): a listener that DISPATCHES
+   while it is being called.  The audit's surviving mutant kept the running event on the dispatcher object
+   and was wrong exactly there; no history of the tie and no theorem reached a dispatch made from inside a
+   listener.  The dispatcher record and its functions are still the ones above; one more table says which
+   event a callable dispatches when it is called.  The call log of a dispatch is FLAT: each listener called,
+   and right behind it what the dispatch it makes calls. *)
+From Clikit Require Import Proofs.DispatcherNestLemmas.
+
+(* For EVERY sequence of ops, dispatching listeners included, every dispatch (flat log), get_listeners(event)
+   and has_listeners answer of the model is the answer of a specification that keeps only the log of
+   registrations and the behaviour tables. *)
+Theorem nrun_refines : forall ops, nouts_agree ops (nrun ninit ops) (nsrun nsinit ops).
+Proof. exact nrun_refines_lemma. Qed.
+Print Assumptions nrun_refines.
+
+(* In that specification EVERY dispatch - made by the caller or by a listener in the middle of another
+   dispatch - walks the registrations of ITS event that are in the log WHEN IT STARTS, highest priority
+   first, registration order within a priority ... *)
+Theorem every_dispatch_walks_the_log_as_it_is_when_it_starts : forall f m ev,
+  qndispatch (S f) m ev = qnwalk (qndispatch f) m (spec_order (q_regs (m_q m)) ev).
+Proof. reflexivity. Qed.
+Print Assumptions every_dispatch_walks_the_log_as_it_is_when_it_starts.
+
+(* ... and a listener acts when it is called: what it registers is in the log before the next listener - of
+   this or of a nested dispatch - is called; the dispatch it makes runs to ITS end right behind it; only the
+   listener's own stop ends the walk (the event of a nested dispatch is another object). *)
+Theorem a_called_listener_acts_before_the_next_is_called : forall rec m i r,
+  qnwalk rec m (i :: r) =
+  (let c := callable_of (q_call (m_q m)) i in
+   let m1 := with_q m (qnregisters (m_q m) c) in
+   let '(m2, inner) := match aget N.eqb c (m_disp m1) with Some ev2 => rec m1 ev2 | None => (m1, []) end in
+   if q_stops_of (m_q m) c then (m2, c :: inner)
+   else let '(m3, rest) := qnwalk rec m2 r in (m3, c :: inner ++ rest)).
+Proof. reflexivity. Qed.
+Print Assumptions a_called_listener_acts_before_the_next_is_called.
+
+(* The entry the harness drives sends a sequence without a dispatching listener to run_C12X: every theorem about
+   xrun above still speaks about what is run on such sequences.  PARTIAL: that nrun coincides with xrun on them
+   (interleaved against deferred effects of the called listeners) is not proved - Example below, and the tie. *)
+Theorem run_C12XN_without_dispatching_listeners : forall s, has_op10 s = false -> run_C12XN s = run_C12X s.
+Proof. intros s H. unfold run_C12XN. now rewrite H. Qed.
+Print Assumptions run_C12XN_without_dispatching_listeners.
+
+(* Non-vacuity.  Callable 0 (event 0, priority 5) dispatches event 1 when called; event 1 has the stopping
+   callable 1 and, below it, callable 2; event 0 has callable 3 below callable 0.  Dispatch 0 calls 0, then -
+   nested - 1 (which stops the NESTED event: 2 is not called), then goes on with 3: the outer event is not
+   stopped.  (The audit mutant stopped here: [0; 1].) *)
+Example c12_nested_stop_does_not_stop_the_outer_dispatch :
+  nrun ninit [NAddDispatcher 0 5 1 false; NOp (XOp (Add 1 0 true)); NOp (XOp (Add 1 (-1) false)); NOp (XOp (Add 0 0 false));
+              NOp (XOp (Dispatch 0)); NOp (XOp (Dispatch 1))]
+  = [ONone; ONone; ONone; ONone; OCalled [0; 1; 3]; OCalled [1]]%N.
+Proof. vm_compute. reflexivity. Qed.
+(* Callable 0 (event 0, priority 5) registers, when called, a new listener for event 1 at priority 9; callable 1
+   (event 0, priority 0) dispatches event 1; callable 2 listens to event 1.  The nested dispatch of event 1
+   starts AFTER callable 0 acted: it calls the new callable 3 first, then 2.  A stopping dispatcher (callable 4,
+   event 2 -> event 1... here event 0 at priority 7 in the second history) still makes its dispatch, then ends the walk. *)
+Example c12_nested_dispatch_sees_what_was_registered_before_it_started :
+  nrun ninit [NOp (XAddRegistrar 0 5 1 9); NAddDispatcher 0 0 1 false; NOp (XOp (Add 1 0 false)); NOp (XOp (Dispatch 0));
+              NOp (XOp (Get 1))]
+  = [ONone; ONone; ONone; OCalled [0; 1; 3; 2]; OList [3; 2]]%N /\
+  nrun ninit [NAddDispatcher 0 7 1 true; NOp (XOp (Add 0 0 false)); NOp (XOp (Add 1 0 false)); NOp (XOp (Dispatch 0))]
+  = [ONone; ONone; ONone; OCalled [0; 2]]%N.
+Proof. vm_compute. split; reflexivity. Qed.
+(* the specification gives the same logs (the theorem says so for all sequences; this is the instance) *)
+Example c12_nested_spec_instance :
+  nsrun nsinit [NAddDispatcher 0 5 1 false; NOp (XOp (Add 1 0 true)); NOp (XOp (Add 1 (-1) false)); NOp (XOp (Add 0 0 false));
+                NOp (XOp (Dispatch 0)); NOp (XOp (Dispatch 1))]
+  = [ONone; ONone; ONone; ONone; OCalled [0; 1; 3]; OCalled [1]]%N.
+Proof. vm_compute. reflexivity. Qed.
+(* on a sequence without dispatching listeners the third layer answers as the second *)
+Example c12_third_layer_on_second_layer_ops :
+  let ops := [XAddRegistrar 0 0 0 5; XOp (Add 0 0 false); XAddAgain 0 5 1; XOp (Dispatch 0); XOp (Dispatch 0); XOp (Get 0);
+              XDispatchStopped 0; XAddDefault 1 true; XOp (Dispatch 1); XOp (Has None)] in
+  nrun ninit (map NOp ops) = xrun xinit ops.
+Proof. vm_compute. reflexivity. Qed.
+(* a dispatching callable is registered again only for an event before the one it dispatches: op ignored otherwise *)
+Example c12_no_cycles :
+  nrun ninit [NAddDispatcher 0 0 1 false; NOp (XAddAgain 1 0 0); NOp (XAddAgain 0 5 0); NOp (XOp (Get 1)); NOp (XOp (Get 0))]
+  = [ONone; ONone; ONone; OList []; OList [0; 0]]%N.
+Proof. vm_compute. reflexivity. Qed.
